@@ -168,6 +168,8 @@ class Family:
         for step, log in problems:
             path = core.write_replay(self.pid, "", {"property": self.pid, "found-by": step, "log": log[-3000:]})
             res.violation(path, step, no_input=True)
+        if not problems and res.tier == "thorough" and coq["ok"]:
+            core.coqchk_property(res, self.pid)
         return None if problems else coq
 
     def proof_verdict(self, res, coq, n_failing):
